@@ -9,7 +9,7 @@ import Gomacro.Drv.Sem
 import Gomacro.Drv.C15
 import Gomacro.Drv.C03
 import Gomacro.Drv.C04
-import Gomacro.Drv.C13
+import Gomacro.Drv.C14
 /-! JSON-lines driver: one request object per line in, one reply per line out.
 Unknown ops are `bad-op`, never defaulted.  Core-only imports (links as an executable). -/
 open Lean Gomacro.Drv
@@ -36,7 +36,9 @@ def handlers : List (String × Handler) := [
   ("c05.gen", c05Gen),
   ("c05.check", c05Check),
   ("c13.extract", c13Extract),
-  ("c13.spec", c13Spec)
+  ("c13.spec", c13Spec),
+  ("c14.gen", c14Gen),
+  ("c14.perform", c14Perform)
 ]
 
 def handleLine (line : String) : String :=
